@@ -32,17 +32,18 @@ def setup(ctx):
         "is enumerated as crash point (forked child killed, file reopened) and as injected OperationalError; import "
         "files with each defect kind (missing field, bad port, bad fingerprint, non-table entry, duplicate host under "
         "two keys, failing on_conflict at the j-th conflict, unreadable/invalid file) at every entry position in both "
-        "modes; export->import round trip for hostile host names. distinct = (operation, mode, injection kind, "
+        "modes; export->import round trip for hostile host names (with later last_seen); syscall level: strace injects EIO / ENOSPC / SIGKILL at the n-th pwrite64 / fdatasync / unlink on the database and its journal (every n in the thorough tier), so faults and kills also land inside SQLite's commit. distinct = (operation, mode, injection kind, "
         "boundary index, store size, outcome in {before, after})."
     )
     ctx.assumptions = [
-        "SQLite's own commit is atomic at the byte level (rollback journal); crash points are statement boundaries, not mid-syscall",
+        "crash points are statement boundaries plus syscall boundaries of the database/journal files (strace injection); a torn single write is not simulated",
         "last_seen is excluded from comparisons; first_seen of rows created by the operation itself is not compared",
     ]
     ctx.require("monitor", "crash_points", 98)
     ctx.require("monitor", "error_points", 98)
     ctx.require("monitor", "defective_imports", 100)
     ctx.require("monitor", "roundtrip_hosts", 60)
+    ctx.require("monitor", "syscall_injections", 10)
     ctx.require("monitor", "roundtrip_hosts_with_later_last_seen", 20)
     ctx.require("monitor", "outcome_before", 50)
     ctx.require("monitor", "outcome_after", 27)
@@ -493,6 +494,97 @@ def type_of(name):
     return "plain"
 
 
+# --------------------------------------------------------------------------- syscall level (strace)
+
+
+def run_strace(ctx, tmp):
+    """Faults and kills *inside* SQLite's commit: strace injects EIO/ENOSPC or SIGKILL at the n-th
+    pwrite64 / fdatasync / unlink on the database file or its journal."""
+    import json as _json
+    import re as _re
+    import shutil as _sh
+    import subprocess
+    import sys as _sys
+
+    from vf import REPO, VERIF_ROOT
+
+    if not _sh.which("strace"):
+        ctx.count("unreachable", "strace not available: syscall-level injection skipped")
+        return
+    child = os.path.join(VERIF_ROOT, "vf", "strace_child.py")
+    src = os.path.join(REPO, "src")
+    idents = [certs.identity(f"c12-{i}", "ec") for i in range(3)]
+    f_ok = os.path.join(tmp, "st-ok.toml")
+    write_import(f_ok, [good_entry("imp1.example", 1965, 0), good_entry(HOSTS[0], 1965, 0), good_entry("imp2.example", 1966, 1), good_entry(HOSTS[1], 1966, 2)])
+    ops = [
+        ("trust-new", {"op": "trust", "host": "new.example", "port": 1965, "cert": idents[1].certfile}),
+        ("trust-existing", {"op": "trust", "host": HOSTS[0], "port": 1965, "cert": idents[2].certfile}),
+        ("verify-match", {"op": "verify", "host": HOSTS[0], "port": 1965, "cert": idents[0].certfile}),
+        ("revoke", {"op": "revoke", "host": HOSTS[0], "port": 1965}),
+        ("clear", {"op": "clear"}),
+        ("import-merge", {"op": "import", "file": f_ok, "merge": True, "update": True}),
+        ("import-replace", {"op": "import", "file": f_ok, "merge": False, "update": True}),
+    ]
+    dbpath = os.path.join(tmp, "st-seed.db")
+    if os.path.exists(dbpath):
+        os.unlink(dbpath)
+    seed_store(dbpath, 3)
+    before = dump(dbpath)
+    k = 0
+    for name, op in ops:
+        work = os.path.join(tmp, "st-work.db")
+
+        def fresh():
+            for suffix in ("", "-journal", "-wal", "-shm"):
+                if os.path.exists(work + suffix):
+                    os.unlink(work + suffix)
+            shutil.copy(dbpath, work)
+
+        def run_child(extra):
+            cmd = ["strace", "-f", "-qq", "-P", work, "-P", work + "-journal"] + extra + [_sys.executable, child, src, work, _json.dumps(op)]
+            return subprocess.run(cmd, capture_output=True, text=True, timeout=120)
+
+        # uninterrupted run under strace: the 'after' state and the syscall counts
+        fresh()
+        log = os.path.join(tmp, "st.log")
+        r = run_child(["-e", "trace=pwrite64,fdatasync,unlink", "-o", log])
+        if r.returncode != 0:
+            ctx.inconclusive_because(f"strace control run failed for {name}: {r.stderr[-200:]}")
+            continue
+        after = normalise(dump(work), before)
+        text = open(log).read()
+        counts = {sc: len(_re.findall(rf"\b{sc}\(", text)) for sc in ("pwrite64", "fdatasync", "unlink")}
+        ctx.count("strace_syscalls", f"{name}:{counts}")
+        for sc, actions in (("pwrite64", ("signal=KILL", "error=EIO", "error=ENOSPC")), ("fdatasync", ("signal=KILL", "error=EIO")), ("unlink", ("signal=KILL", "error=EIO"))):
+            ns = list(range(1, counts[sc] + 1))
+            if ctx.quick() and len(ns) > 2:
+                ns = [1, ns[len(ns) // 2], ns[-1]]
+            for n in ns:
+                for action in actions:
+                    k += 1
+                    if not ctx.mine(k):
+                        continue
+                    if ctx.quick() and action not in ("signal=KILL", "error=EIO"):
+                        continue
+                    fresh()
+                    r = run_child(["-e", f"trace={sc}", "-e", f"inject={sc}:{action}:when={n}", "-o", os.devnull])
+                    got = normalise(dump(work), before)
+                    ctx.count("monitor", "syscall_injections")
+                    kind = "crash" if action.startswith("signal") else "error"
+                    wit = {"operation": name, "syscall": sc, "nth": n, "of": counts[sc], "action": action, "child_exit": r.returncode, "child_stderr": r.stderr[-200:],
+                           "before": before, "after_uninterrupted": after, "observed": got}
+                    if got == before:
+                        oc = "before"
+                    elif got == after:
+                        oc = "after"
+                    else:
+                        oc = "neither"
+                        ctx.violation(f"{'emptied' if not got and before else 'partial-state'}:op={name}:injection=syscall-{kind}",
+                                      f"{action} at {sc} #{n}/{counts[sc]} left the store in neither the before nor the after state", wit)
+                    ctx.count("monitor", "outcome_" + oc if oc != "neither" else "outcome_neither")
+                    ctx.case(("strace", name, sc, n, action, oc, r.returncode != 0), True, sample={"operation": name, "syscall": sc, "nth": n, "action": action, "outcome": oc, "child_exit": r.returncode})
+
+
 def run(ctx):
     rng = ctx.rng("c12")
     tmp = tempfile.mkdtemp(prefix="vf-c12-")
@@ -510,6 +602,7 @@ def run(ctx):
             if ctx.mine(i):
                 run_defective(ctx, tmp, nstore)
         run_roundtrip(ctx, tmp, rng)
+        run_strace(ctx, tmp)
     finally:
         Injector.uninstall()
         shutil.rmtree(tmp, ignore_errors=True)
